@@ -2,6 +2,7 @@ package main
 
 import (
 	"fmt"
+	"go/constant"
 	"sort"
 	"strings"
 	"go/token"
@@ -211,6 +212,57 @@ func (e *Engine) structural(spec string) (bool, string) {
 			return false, "no initialiser entries found for " + parts[2]
 		}
 		return true, fmt.Sprintf("%d initialiser entries, all true", n)
+	case "global-regex":
+		// global-regex|<pkg>|<global>|<pattern>: the global is initialised once, by regexp.MustCompile of exactly this literal
+		if len(parts) < 4 {
+			return false, "bad spec"
+		}
+		want := strings.Join(parts[3:], "|")
+		found := false
+		var bad []string
+		for key, fn := range e.funcs {
+			pk := fnPackage(fn)
+			if pk == nil || pkgKey(pk) != parts[1] || fn.Blocks == nil {
+				continue
+			}
+			for _, b := range fn.Blocks {
+				for _, ins := range b.Instrs {
+					st, ok := ins.(*ssa.Store)
+					if !ok {
+						continue
+					}
+					g, ok := st.Addr.(*ssa.Global)
+					if !ok || g.Name() != parts[2] {
+						continue
+					}
+					call, ok := st.Val.(*ssa.Call)
+					if !ok || call.Call.StaticCallee() == nil || normName(call.Call.StaticCallee().String()) != "regexp.MustCompile" || len(call.Call.Args) != 1 {
+						bad = append(bad, key+" assigns "+parts[2]+" from something other than regexp.MustCompile(literal)")
+						continue
+					}
+					c, ok := call.Call.Args[0].(*ssa.Const)
+					if !ok || c.Value == nil || constant.StringVal(c.Value) != want {
+						got := "?"
+						if ok && c.Value != nil {
+							got = constant.StringVal(c.Value)
+						}
+						bad = append(bad, fmt.Sprintf("%s compiles %q, expected %q", parts[2], got, want))
+						continue
+					}
+					if fn.Name() != "init" {
+						bad = append(bad, key+" reassigns "+parts[2])
+					}
+					found = true
+				}
+			}
+		}
+		if len(bad) > 0 {
+			return false, strings.Join(bad, "\n")
+		}
+		if !found {
+			return false, "no initialiser found for " + parts[2]
+		}
+		return true, "pattern literal as expected"
 	case "under-contract":
 		for _, k := range strings.Split(parts[1], ",") {
 			k = strings.TrimSpace(k)
